@@ -565,7 +565,7 @@ def c19_18(ctx):
             verdict("compactfilter:%s.serialize" % cls_, cls_.lower(), bad[1] if bad and bad[0] == cls_ else None, "%s: 3 cells equal the BIP157 layout" % cls_)
         # ---- readers
         bad = None
-        for n in (0, 1, 3, 252, 253):
+        for n in (0, 1, 3, 252, 253, 1999, 2000):   # 2000 is the protocol's maximum and the usual size during header sync
             ctx.count("cells")
             hdr = lambda i: bytes((i + j) & 255 for j in range(80))
             data = cs(n) + b"".join(hdr(i) + b"\x00" for i in range(n))
@@ -580,7 +580,7 @@ def c19_18(ctx):
                 bad = "a headers message whose header is followed by a non-zero transaction count is accepted"
             except Raised:
                 pass
-        verdict("network:HeadersMessage.parse", "headers", bad, "headers: 0, 1, 3, 252, 253 headers parse in order; a non-zero transaction count is refused")
+        verdict("network:HeadersMessage.parse", "headers", bad, "headers: 0, 1, 3, 252, 253, 1999, 2000 headers parse in order; a non-zero transaction count is refused")
         bad = None
         for n in (0, 1, 2, 252, 253):
             ctx.count("cells")
